@@ -6,7 +6,7 @@
    The generic theorems hold for ANY width function w with the stated bounds;
    the _wcwidth versions instantiate w with the table-driven OfRune. *)
 From verif Require Import lib.Base lib.Utf8 gen.Tables model.C34_width model.C34
-  proofs.C34_proofs proofs.C34_builder proofs.C34_inst.
+  proofs.C34_proofs proofs.C34_builder proofs.C34_search proofs.C34_inst.
 Open Scope Z_scope.
 
 (* the generated combiningRanges table is strictly increasing, disjoint and
@@ -16,14 +16,17 @@ Theorem C34_table_monotone : ranges_sorted wcwidth_combiningRanges = true.
 Proof. exact table_monotone. Qed.
 Print Assumptions C34_table_monotone.
 
-(* FULL STATEMENT (not proved in general): forall r, in_range r table = in_range_lin r table.
-   Proved instead, by computation on the generated table: agreement at every
-   range end point and both of its neighbours. *)
-Theorem C34_table_search_partial :
-  forallb (fun r => Bool.eqb (in_range r wcwidth_combiningRanges) (in_range_lin r wcwidth_combiningRanges))
-          (-1 :: 0 :: 1114112 :: table_points) = true.
-Proof. exact table_search_partial. Qed.
-Print Assumptions C34_table_search_partial.
+(* sort.Search as used by wcwidth.inRange computes membership in one of the
+   ranges, for EVERY sorted table and every rune; hence for the generated one *)
+Theorem C34_in_range_correct : forall l r,
+  ranges_sorted l = true -> in_range r l = in_range_lin r l.
+Proof. exact in_range_correct. Qed.
+Print Assumptions C34_in_range_correct.
+
+Theorem C34_table_search : forall r,
+  in_range r wcwidth_combiningRanges = in_range_lin r wcwidth_combiningRanges.
+Proof. exact table_search. Qed.
+Print Assumptions C34_table_search.
 
 (* OfRune only returns 0, 1 or 2 *)
 Theorem C34_of_rune_range : forall r, 0 <= of_rune r <= 2.
